@@ -460,3 +460,7 @@ pub fn replay(case: &serde_json::Value) -> String {
         _ => format!("type {ty}: offered {off} (re-run the check; no single-case replayer for this type)"),
     }
 }
+
+fn main() {
+    agv_engine::driver::main("C07", "exploration", run, Some(replay))
+}
